@@ -844,7 +844,8 @@ class QuantizedFloat(QuantizedFloatBase):
 
     def __init__(self, prim_spec: SerializablePrimitive, lower: float, upper: float,
                  zero_median: Optional[bool] = None):
-        super().__init__(prim_spec, zero_median=False)
+        # An explicit True / False is taken as given, None is resolved below
+        super().__init__(prim_spec, zero_median=bool(zero_median))
         self.lower = lower
         self.upper = upper
         # We know the range in `QuantizedFloat` when it's constructed, so we can infer
